@@ -54,7 +54,7 @@ def job_regexp_to_nfa(job, depth, maxlen, syms='ab', shape=None, exh=12):
     return job.solve()
 
 
-def job_dfa_to_regexp(job, n, syms, maxlen, order='symbolic', exh=14, perm=None):
+def job_dfa_to_regexp(job, n, syms, maxlen, order='symbolic', exh=14, perm=None, history=False):
     c.set_exhaustive(exh)
     if perm is not None:
         # one job per elimination order (cube splitting over the schedule): perm-th permutation of the states
@@ -78,6 +78,16 @@ def job_dfa_to_regexp(job, n, syms, maxlen, order='symbolic', exh=14, perm=None)
     job.decoders['D'] = view.to_json
     rp = ('d2r', {'D': view.to_json, 'maxlen': maxlen, 'nseeds': 48})
     r = job.call(dfa_to_regexp, Dm, replay=rp)
+    r2 = unchanged = None
+    if history and r is not None:
+        # call history: the same DFA object is edited in place (the initial state changes its accepting status) and converted
+        # again - the second expression must denote the language of the automaton as it is now
+        from .C14 import dfa_changed
+        unchanged = dfa_changed(view, DfaView(Dm, names, syms))
+        Dm.F.m[names[0]] = Dm.F.m.get(names[0], FALSE) ^ 1
+        view2 = DfaView(Dm, names, syms)
+        rph = ('d2r_history', {'D': view.to_json, 'maxlen': maxlen, 'toggle': names[0]})
+        r2 = job.call(dfa_to_regexp, Dm, replay=rph)
     job.lifted()
     if perm is not None and L.ORDER.get('log'):
         rp[1]['rip_order'] = list(L.ORDER['log'][0])
@@ -88,7 +98,11 @@ def job_dfa_to_regexp(job, n, syms, maxlen, order='symbolic', exh=14, perm=None)
         job.oblige('dfa_to_regexp(D) denotes %r iff D accepts it' % w, d.iff(sem.member(r, w), view.accepts(w)) ^ 1, replay=rp)
     # argument unchanged
     from .C14 import dfa_changed
-    job.oblige('argument DFA unchanged', dfa_changed(view, DfaView(Dm, names, syms)), replay=rp)
+    job.oblige('argument DFA unchanged', unchanged if unchanged is not None else dfa_changed(view, DfaView(Dm, names, syms)), replay=rp)
+    if r2 is not None:
+        for w in c.words_upto(syms, maxlen):
+            job.oblige('after an in-place edit of D: dfa_to_regexp(D) denotes %r iff D now accepts it' % w,
+                       d.iff(sem.member(r2, w), view2.accepts(w)) ^ 1, replay=rph)
     job.failures_as_obligations(replay=rp)
     job.sample_replays = 3
     return job.solve()
@@ -142,6 +156,8 @@ def jobs(tier):
         add('r2n_digits_%s' % _shape_name(s), job_regexp_to_nfa, depth=_depth(s), maxlen=3, shape=s, syms='01', timeout=tmo)
     # DFA -> regexp: all DFAs, one job per state-elimination order (cube splitting over the schedule) plus fully symbolic order for n = 2
     add('d2r_n1_ab', job_dfa_to_regexp, n=1, syms='ab', maxlen=3, timeout=tmo)
+    add('d2r_n2_a_edit_history', job_dfa_to_regexp, n=2, syms='a', maxlen=4, perm=0, history=True, timeout=tmo)
+    add('d2r_n2_ab_edit_history', job_dfa_to_regexp, n=2, syms='ab', maxlen=3, perm=1, history=True, timeout=tmo)
     add('d2r_n2_ab_symbolic_order', job_dfa_to_regexp, n=2, syms='ab', maxlen=4, timeout=tmo)
     add('d2r_n2_a_symbolic_order', job_dfa_to_regexp, n=2, syms='a', maxlen=5, timeout=tmo)
     for syms, ml in (('ab', 5), ('01', 4), ('abc', 3)):
@@ -222,4 +238,21 @@ def _judge_d2r(rp, D, before, r):
                                                       'argument modified': nat.dfa_json_of(D) != before}
 
 
-REPLAY = {'r2n': _replay_r2n, 'd2r': _replay_d2r}
+def _replay_d2r_history(rp):
+    from gambatools.regexp_algorithms import dfa_to_regexp
+    D = nat.mk_dfa(rp['D'])
+    try:
+        dfa_to_regexp(D)
+        D.F ^= {type(next(iter(D.Q)))(rp['toggle'])}
+        r = dfa_to_regexp(D)
+    except Exception as e:
+        return True, {'library raised': repr(e)}
+    js = dict(rp['D'], F=sorted(set(rp['D']['F']) ^ {rp['toggle']}))
+    n = rp['maxlen'] + 1
+    words = nat.words_upto(js['Sigma'], n)
+    exp = {w for w in words if nat.ref_dfa_accepts(js, w)}
+    got = nat.ref_regexp_lang(nat.regexp_json_of(r), n) & set(words)
+    return got != exp, {'regexp after the edit': str(r), 'differs on': sorted(got ^ exp, key=lambda w: (len(w), w))[:4]}
+
+
+REPLAY = {'d2r_history': _replay_d2r_history, 'r2n': _replay_r2n, 'd2r': _replay_d2r}
